@@ -33,6 +33,9 @@ type tracePager struct {
 	lockFail bool
 	// gate, when set, is called before every event is recorded (scheduler gate for replays)
 	gate func(ev event)
+	// postGate, when set, is called after the event has been recorded: the state change has
+	// happened and is not yet visible to the caller (blocking here parks the operation)
+	postGate func(ev event)
 	// snapshot of the kernel lock table taken at every event, when set
 	snap func() string
 }
@@ -47,6 +50,9 @@ func (t *tracePager) add(ev event) {
 	t.mu.Lock()
 	t.events = append(t.events, ev)
 	t.mu.Unlock()
+	if t.postGate != nil {
+		t.postGate(ev)
+	}
 }
 
 func (t *tracePager) take() []event {
